@@ -4,20 +4,22 @@ From Cicada Require Import Base.Chars Base.Peg Gen.LocustGrammar Model.Script Mo
   Proofs.ScriptProofs Proofs.PegProofs Proofs.LocustParse.
 From Coq Require Import ZArith String Ascii.
 
-(** 1. The interpreter of scripting.rs (run_exp and its helpers, transcribed),
-    run on the ideal pair tree of a well-formed script, is the structured
-    semantics -- for every world, every behaviour of commands / conditions /
-    word lists, every nesting depth, inside or outside a loop, with [n] the
-    bound on the iterations of one while loop on both sides, provided the
-    recursion bound [d] exceeds the nesting measure and set -e is off. *)
+(** 1. The interpreter of scripting.rs (run_exp and its helpers, transcribed, with the
+    exit_requested tests of 05253ef), run on the ideal pair tree of a well-formed script, is the
+    structured semantics -- for every world, every behaviour of commands / conditions / word
+    lists, every nesting depth, inside or outside a loop, with [n] the bound on the iterations
+    of one while loop on both sides, provided the recursion bound [d] exceeds the nesting
+    measure; [e] says whether set -e is in effect throughout (exit_on_error reads [e] in every
+    world): with e = false nothing stops the script, with e = true the reference semantics
+    ends everything at the first statement whose last pipeline failed, at any depth. *)
 Theorem C14_interp :
   forall (W : Type) (run_line : W -> str -> W * list Z) (for_words : W -> str -> W * list str)
-         (set_var : W -> str -> str -> W) (eoe : W -> bool) (n : nat),
-  (forall w, eoe w = false) ->
+         (set_var : W -> str -> str -> W) (eoe : W -> bool) (e : bool) (n : nat),
+  (forall w, eoe w = e) ->
   forall b, wf_block b = true ->
   forall d in_loop w r txt, (depth_block b < d)%nat ->
   run_exp W run_line for_words set_var eoe n d (TNode r txt (kids_of_block b)) in_loop w =
-  sem_block W run_line for_words set_var n b in_loop w.
+  sem_block W run_line for_words set_var e n b in_loop w.
 Proof. exact run_exp_sem. Qed.
 
 (** 2. Parser correctness, full statement (NOT proved in general: carried by the
@@ -131,12 +133,12 @@ Proof. vm_compute. repeat split. Qed.
 
 Check C14_interp :
   forall (W : Type) (run_line : W -> str -> W * list Z) (for_words : W -> str -> W * list str)
-         (set_var : W -> str -> str -> W) (eoe : W -> bool) (n : nat),
-  (forall w, eoe w = false) ->
+         (set_var : W -> str -> str -> W) (eoe : W -> bool) (e : bool) (n : nat),
+  (forall w, eoe w = e) ->
   forall b, wf_block b = true ->
   forall d in_loop w r txt, (depth_block b < d)%nat ->
   run_exp W run_line for_words set_var eoe n d (TNode r txt (kids_of_block b)) in_loop w =
-  sem_block W run_line for_words set_var n b in_loop w.
+  sem_block W run_line for_words set_var e n b in_loop w.
 Check C14_anchor_sound : forall (g : grammar) (start : N), top_anchored g start = true ->
   forall input p r k, parse_from g start input = POk p r k -> r = nil.
 
@@ -156,7 +158,7 @@ Example C14_nonvacuous :
    | Some (Done w crs _ _) => Some (List.length w, crs)
    | _ => None
    end) = Some (13%nat, (0 :: 0 :: 0 :: nil)%Z) /\
-  sem_block (list str) fail_conditions words3 (fun w _ _ => w) 8 wit2 false nil =
+  sem_block (list str) fail_conditions words3 (fun w _ _ => w) false 8 wit2 false nil =
   (match run_lines (list str) fail_conditions words3 (fun w _ _ => w) (fun _ => false) 8 (render_block wit2) nil with
    | Some o => o
    | None => Panic
